@@ -637,6 +637,35 @@ theorem airLoop_perm {β κ ν α : Type} (tryBuild : β → κ → ν → Optio
   intro b hb
   exact firstErr_perm_of_unique (fun kv : κ × ν => tryBuild b kv.1 kv.2) h (hone b hb)
 
+/-- Sorting a hash map's entries by key gives the same list for every iteration order. -/
+theorem sortedEntries_perm {ν : Type} {base₁ base₂ : List (Nat × ν)} (h : base₁.Perm base₂)
+    (hk : (base₁.map Prod.fst).Nodup) :
+    base₁.mergeSort (fun a b => decide (a.1 ≤ b.1)) = base₂.mergeSort (fun a b => decide (a.1 ≤ b.1)) := by
+  have htr : ∀ a b c : Nat × ν, decide (a.1 ≤ b.1) = true → decide (b.1 ≤ c.1) = true → decide (a.1 ≤ c.1) = true := by
+    intro a b c h1 h2; simp only [decide_eq_true_eq] at *; omega
+  have htot : ∀ a b : Nat × ν, (decide (a.1 ≤ b.1) || decide (b.1 ≤ a.1)) = true := by
+    intro a b; simp only [Bool.or_eq_true, decide_eq_true_eq]; omega
+  have p1 := List.pairwise_mergeSort htr htot base₁
+  have p2 := List.pairwise_mergeSort htr htot base₂
+  have hp : (base₁.mergeSort fun a b => decide (a.1 ≤ b.1)).Perm (base₂.mergeSort fun a b => decide (a.1 ≤ b.1)) :=
+    (List.mergeSort_perm _ _).trans (h.trans (List.mergeSort_perm _ _).symm)
+  refine List.Perm.eq_of_pairwise ?_ p1 p2 hp
+  intro a b ha hb hab hba
+  simp only [decide_eq_true_eq] at hab hba
+  have hkey : a.1 = b.1 := by omega
+  have ha' : a ∈ base₁ := (List.mergeSort_perm _ _).subset ha
+  have hb' : b ∈ base₁ := h.symm.subset ((List.mergeSort_perm _ _).subset hb)
+  exact List.inj_on_of_nodup_map hk ha' hb' hkey
+
+/-- **AIR-builder loop after the repair (F-C18-1, /repo 9b88fce).** With the entries visited in sorted
+op-type order the AIR list does not depend on the map's iteration order — for *every* family of
+builders, including one that can build several entries (no `hone` hypothesis). -/
+theorem airLoop_sorted {β ν α : Type} (tryBuild : β → Nat → ν → Option α) (builders : List β)
+    {base₁ base₂ : List (Nat × ν)} (h : base₁.Perm base₂) (hk : (base₁.map Prod.fst).Nodup) :
+    airLoopSorted tryBuild builders base₁ = airLoopSorted tryBuild builders base₂ := by
+  unfold airLoopSorted
+  rw [sortedEntries_perm h hk]
+
 /-- Whether a builder finds *some* table to build never depends on the order — only *which* one. -/
 theorem airLoop_length_perm {β κ ν α : Type} (tryBuild : β → κ → ν → Option α) (builders : List β)
     {base₁ base₂ : List (κ × ν)} (h : base₁.Perm base₂) :
